@@ -100,26 +100,21 @@ struct read_cache_slot {
 	/** Buffer metadata */
 	addrxlat_buffer_t buffer;
 
+	/** Non-zero while the get-page callback is filling this slot.
+	 * The callback may read through the same context (e.g. to look
+	 * up the location of the requested page in a table that is itself
+	 * stored in memory). Such nested reads must leave this slot alone.
+	 */
+	int filling;
+
 	/** MRU chain. */
 	struct read_cache_slot *prev, *next;
 };
-
-/** Maximum nesting of get-page callbacks.
- * A get-page callback may itself read through the same context (e.g. to
- * look up the location of the requested page in a table that is stored
- * in memory).  Sane callbacks nest a few levels.  A page that can be
- * located only with the help of its own content (or a longer cycle of
- * such pages) asks for a new page at every level.
- */
-#define MAX_READ_NESTING	16
 
 /** Read cache storage and metadata. */
 struct read_cache {
 	/** Most recently used cache slot. */
 	struct read_cache_slot *mru;
-
-	/** Number of get-page callbacks in progress. */
-	unsigned nesting;
 
 	/** Cache slots. */
 	struct read_cache_slot slot[READ_CACHE_SLOTS];
